@@ -8,6 +8,7 @@ import (
 	"os"
 	"path/filepath"
 	"sync"
+	"time"
 
 	"verif/tree"
 	"verif/worker"
@@ -39,7 +40,21 @@ func C18(e *Env) {
 			kind = "tiny-files"
 		}
 		name := fmt.Sprintf("t%04d", i)
-		genISOTree(r, parent, name, opt, ps3)
+		troot, _ := genISOTree(r, parent, name, opt, ps3)
+		if i%4 == 1 {
+			// dates the one-byte year field of a directory record cannot hold, the epoch, far future
+			kind += "+odd-dates"
+			dates := []int64{-3786825600 /* 1850 */, -1, 0, 1, 7258118400 /* 2200 */, 4102444800 /* 2100 */, 8000000000 /* 2223 */, 946684800}
+			k := 0
+			filepath.Walk(troot, func(p string, fi os.FileInfo, err error) error {
+				if err == nil {
+					t := time.Unix(dates[k%len(dates)], 0)
+					os.Chtimes(p, t, t)
+					k++
+				}
+				return nil
+			})
+		}
 		trees = append(trees, tc{name, ps3, kind})
 	}
 	p := e.Worker(worker.Config{Root: parent, BufSize: 65536, Log: os.Getenv("VERIF_WLOG")}, "c18", true, 0)
@@ -66,6 +81,32 @@ func C18(e *Env) {
 			run.Violate("bytes-differ", how, fmt.Sprintf("[%s ps3=%v] images of the unchanged tree differ at offset %d (sector %d, in-sector %d), lengths %d/%d (%s)", t.name, t.ps3, d, d/2048, d%2048, len(a), len(b), how), wit)
 		}
 	}
+	// phase 1: the reference image of every tree; then more than a second passes, so that anything
+	// derived from the time of the open (instead of from the tree) differs in the later opens
+	type refImg struct {
+		img []byte
+		ann int64
+		ok  bool
+	}
+	refs := make([]refImg, len(trees))
+	openLib := func(t tc) ([]byte, int64, bool) {
+		v, _, err, perr := libOpenImage(parent, "/"+t.name, t.ps3, 0)
+		if err != nil || perr != nil {
+			return nil, 0, false
+		}
+		defer v.Close()
+		st, _ := v.Stat()
+		img, err, perr := readAllSeq(v, 65536, st.Size()+1<<20)
+		if err != nil || perr != nil {
+			return nil, 0, false
+		}
+		return img, st.Size(), true
+	}
+	ParallelDo(len(trees), 8, func(i int) {
+		img, ann, ok := openLib(trees[i])
+		refs[i] = refImg{img, ann, ok}
+	})
+	time.Sleep(1200 * time.Millisecond)
 	ParallelDo(len(trees), 6, func(i int) {
 		t := trees[i]
 		rel := "/" + t.name
@@ -82,7 +123,7 @@ func C18(e *Env) {
 			}
 			return img, st.Size(), true
 		}
-		ref, refAnn, ok := open()
+		ref, refAnn, ok := refs[i].img, refs[i].ann, refs[i].ok
 		if !ok {
 			run.Violate("creation-failed", t.kind, fmt.Sprintf("[%s] image of a portable-name tree could not be produced", t.name), map[string]any{"tree": t.name})
 			return
